@@ -61,11 +61,11 @@ func TestDbgEdge(t *testing.T) {
 		}
 		k := 0
 		for _, f := range l.Fates {
-			if f.Status == -3 && f.Height+1 == a {
+			if (f.Status == -3 || os.Getenv("ANY") != "") && f.Height+1 == a && len(f.ToAmount)+1 > 0 {
 				k++
 			}
 		}
-		if k == 0 {
+		if k == 0 && os.Getenv("ANY") == "" {
 			bi := int(a - 1 - w.Spec.First)
 			cnt := map[int64]int{}
 			npf := 0
